@@ -8,6 +8,7 @@ import (
 	"os"
 	"os/signal"
 	"path/filepath"
+	"strings"
 	"syscall"
 	"time"
 
@@ -17,6 +18,10 @@ import (
 // puppetEnv carries the puppet's plan.  When it is set this process is not a
 // worker but the wrapped command of one run.
 const puppetEnv = "VERIF_PUPPET"
+
+// puppetArg carries the plan as the only argument instead: GoSimple builds the
+// command itself and offers no way to set its environment.
+const puppetArg = "-verif-puppet="
 
 // cwaitSoftCap: a child waiting for the consumer gives up after this long
 // and carries on; the gate is a scheduling device, the oracle does not
@@ -47,6 +52,9 @@ type puppetResult struct {
 func init() {
 	if s := os.Getenv(puppetEnv); s != "" {
 		os.Exit(runPuppet(s))
+	}
+	if len(os.Args) == 2 && strings.HasPrefix(os.Args[1], puppetArg) {
+		os.Exit(runPuppet(os.Args[1][len(puppetArg):]))
 	}
 }
 
